@@ -197,6 +197,8 @@ def hms_value(r, prec):
         if k > 0:
             if len(fld) != 2:
                 return False, None
+        if k >= len(parts) - 2:
+            # minutes and seconds are below 60 - also when they lead the text ('60' or '75:30' is not a formatted time)
             conds.append(DT.digits_value(fld) < 60)
     val = z3.IntVal(0)
     for fld in parts:
@@ -220,9 +222,9 @@ def fmt_ok(x, prec, got):
         h, mi = None, h
     if len(fr or '') != prec:
         return False
-    if mi is not None and (len(s) != 2 or int(s) >= 60):
+    if (mi is not None and len(s) != 2) or int(s) >= 60:
         return False
-    if h is not None and (len(mi) != 2 or int(mi) >= 60):
+    if (h is not None and len(mi) != 2) or (mi is not None and int(mi) >= 60):
         return False
     v = Fraction(int(h or 0) * 3600 + int(mi or 0) * 60 + int(s)) + (Fraction(int(fr), 10 ** len(fr)) if fr else 0)
     X = Fraction(x)
